@@ -257,6 +257,14 @@ class DeepTracer(Tracer):
             n = None
         return self.r_xsa(s) + opt(None if n is None else self.r_xsa(n))
 
+    def r_sad(self, kernel):
+        from ipaddress import ip_address
+        keys = list(kernel.sad.keys())           # insertion order = the order the kernel accepted them
+        out = [str(len(keys))]
+        for (daddr, proto, spi) in keys:
+            out += [ip_address(daddr).packed.hex(), str(proto), hx(spi)]
+        return out
+
     def r_tape(self, vals):
         out = [str(len(vals))]
         for v in vals:
@@ -294,11 +302,12 @@ class DeepTracer(Tracer):
                 expected = 15 if int(sa.state) == 10 else 16
             elif k == 'genrekeyike':
                 expected = 13
-        return {'pre': pre, 'args': args, 'o0': len(self.oracle), 'now': self.w.now, 'expected_state': expected, 'state_before': int(sa.state)}
+        return {'pre': pre, 'args': args, 'o0': len(self.oracle), 'now': self.w.now, 'expected_state': expected, 'state_before': int(sa.state),
+                'sad': self.r_sad(self.w.current.kernel)}
 
     def post_call(self, token, kind, name, sa, res, nl):
         tape = self.oracle[token['o0']:]
-        line = ['hcall', str(ticks(token['now']))] + token['pre'] + token['args'] + self.r_tape(tape)
+        line = ['hcall', str(ticks(token['now']))] + token['pre'] + token['args'] + self.r_tape(tape) + token['sad']
         n = sa.new_ike_sa
         if res[0] == 'ok':
             r = ['nothing'] if res[1] is None else (['reply' if kind == 'req' else 'request'] + wire.r_msg(res[1], with_iv=False) + ['none'])
@@ -306,7 +315,8 @@ class DeepTracer(Tracer):
             ex = res[1]
             r = ['ikeerr' if isinstance(ex, M.IkeSaError) else 'othererr'] + wire.r_payload(M.PayloadNOTIFY.from_exception(ex))
         nlt = self.r_nl(nl)
-        exp = self.r_xsa(sa) + opt(None if n is None else self.r_xsa(n)) + r + [str(len(nlt))] + [x for op in nlt for x in op] + ['0', '0']
+        exp = (self.r_xsa(sa) + opt(None if n is None else self.r_xsa(n)) + r + [str(len(nlt))] + [x for op in nlt for x in op] + ['0', '0']
+               + self.r_sad(self.w.current.kernel))
         self.hlines.append((' '.join(line), ' '.join(exp), {'name': name, 'ep': self.w.current.name, 'state_after': int(sa.state),
                                                              'raised': None if res[0] == 'ok' else type(res[1]).__name__,
                                                              'expected_state': token['expected_state'], 'state_before': token['state_before']}))
@@ -321,9 +331,10 @@ class DeepTracer(Tracer):
         for s in pre_objs:
             pre += self.r_xent(s, pre_objs)
         self.step_pre = pre
+        self.step_sad = self.r_sad(ep.kernel)
 
     def step_end(self, ep, info):
-        line = ['xiter', str(ticks(info['now'])), str(info['thr'])] + self.step_pre + info['event'] + self.r_tape(self.oracle)
+        line = ['xiter', str(ticks(info['now'])), str(info['thr'])] + self.step_pre + info['event'] + self.r_tape(self.oracle) + self.step_sad
         post = info['post_objs']
         exp = ['1' if info['interrupted'] else '0', str(info['ran']), str(len(post))]
         for s in post:
